@@ -507,7 +507,8 @@ impl Prop for C02 {
                             }
                             return;
                         }
-                        let exp = Resp::Game(valve::game::Response::new_from_valve_response(exp_valve));
+                        // (the reference value is built here, field by field, not by the conversion under test)
+                        let exp = Resp::Game(reference_game_response(&exp_valve));
                         check_equal(ctx, x, &exp, &format!("wrapper:{name}"));
                     }
                 }
@@ -523,3 +524,37 @@ pub enum Resp {
     Game(valve::game::Response),
 }
 
+
+
+/// The per-game response for a protocol-level response: every field under the name the per-game type gives it, every
+/// player and every rule kept.
+pub fn reference_game_response(r: &valve::Response) -> valve::game::Response {
+    let e = r.info.extra_data.as_ref();
+    valve::game::Response {
+        protocol: r.info.protocol_version,
+        name: r.info.name.clone(),
+        map: r.info.map.clone(),
+        game: r.info.game_mode.clone(),
+        appid: r.info.appid,
+        players_online: r.info.players_online,
+        players_details: r
+            .players
+            .clone()
+            .unwrap_or_default()
+            .iter()
+            .map(|p| valve::game::Player { name: p.name.clone(), score: p.score, duration: p.duration })
+            .collect(),
+        players_maximum: r.info.players_maximum,
+        players_bots: r.info.players_bots,
+        server_type: r.info.server_type.clone(),
+        has_password: r.info.has_password,
+        vac_secured: r.info.vac_secured,
+        version: r.info.game_version.clone(),
+        port: e.and_then(|e| e.port),
+        steam_id: e.and_then(|e| e.steam_id),
+        tv_port: e.and_then(|e| e.tv_port),
+        tv_name: e.and_then(|e| e.tv_name.clone()),
+        keywords: e.and_then(|e| e.keywords.clone()),
+        rules: r.rules.clone().unwrap_or_default(),
+    }
+}
